@@ -327,6 +327,11 @@ exponent:
 		if p.ch != 0 {
 			return p.errorf("illegal trailing characters in number %q", p.src)
 		}
+		if len(p.buf) == 0 {
+			// A lone zero is skipped by the code above and only added
+			// back by ParseNum after scanNumber returns.
+			p.buf = append(p.buf, '0')
+		}
 		var v apd.Decimal
 		p.isFloat = false
 		return p.decimal(&v)
